@@ -55,6 +55,9 @@ type vC07Case struct {
 	// booleans of Config read where the RPC server / client are built or by the endpoints themselves
 	Tracing  bool `json:"tracing,omitempty"`
 	Follower bool `json:"follower,omitempty"`
+	// Kind "effects": what the call does on the called peer. PeerArg: the peer.ID argument (Cluster.PeerAdd):
+	// 0 = the called peer itself, 1 = the caller (its Cluster.ID call-back succeeds), 2 = a peer nobody can reach
+	PeerArg int `json:"peerarg,omitempty"`
 }
 
 func (c *vC07Case) norm() {
@@ -121,6 +124,7 @@ type vC07Env struct {
 }
 
 var vC07Remote []host.Host // B, C
+var vC07RemoteSrv []*rpc.Server
 
 func vC07NewHost(t *testing.T) host.Host {
 	h, err := libp2p.New(context.Background(), libp2p.ListenAddrStrings("/ip4/127.0.0.1/tcp/0"))
@@ -135,7 +139,14 @@ func vC07NewEnv(t *testing.T, c *vC07Case) *vC07Env {
 	e := &vC07Env{ctx: ctx, cancel: cancel}
 	e.hostA = vC07NewHost(t)
 	for len(vC07Remote) < 2 {
-		vC07Remote = append(vC07Remote, vC07NewHost(t))
+		h := vC07NewHost(t)
+		// the remote callers answer the Cluster.ID call-back of the join handshake (nothing else)
+		srv := rpc.NewServer(h, version.RPCProtocol)
+		if err := srv.RegisterName("Cluster", &vC07Callback{id: h.ID()}); err != nil {
+			t.Fatal(err)
+		}
+		vC07Remote = append(vC07Remote, h)
+		vC07RemoteSrv = append(vC07RemoteSrv, srv)
 	}
 	vPeerUniverse(vC07NPeers)
 	e.ids = []peer.ID{e.hostA.ID(), vC07Remote[0].ID(), vC07Remote[1].ID()}
@@ -186,7 +197,8 @@ func vC07NewEnv(t *testing.T, c *vC07Case) *vC07Env {
 		trust = cc
 	}
 	e.cons = newVC07Cons(e.hostA.ID(), trust)
-	mon := newVMonitor()
+	mon := &vC07Mon{newVMonitor()}
+	ipfsFake := &vC07IPFS{self: e.hostA.ID()}
 	e.cl = &Cluster{
 		ctx:         ctx,
 		cancel:      cancel,
@@ -195,11 +207,11 @@ func vC07NewEnv(t *testing.T, c *vC07Case) *vC07Env {
 		host:        e.hostA,
 		peerManager: pstoremgr.New(ctx, e.hostA, ""),
 		consensus:   e.cons,
-		ipfs:        &vC07IPFS{self: e.hostA.ID()},
+		ipfs:        ipfsFake,
 		tracker:     &vC07Tracker{self: e.hostA.ID()},
 		monitor:     mon,
 		allocator:   ascendalloc.NewAllocator(),
-		informers:   []Informer{&vInformer{"vmetric"}},
+		informers:   []Informer{&vC07Informer{"vmetric", ipfsFake}},
 		readyCh:     make(chan struct{}),
 		doneCh:      make(chan struct{}),
 	}
@@ -301,6 +313,21 @@ func (e *vC07Env) arg(t reflect.Type) interface{} {
 
 // returns passed (= not an authorization error) and a short class of what came back
 func (e *vC07Env) call(t *testing.T, caller int, name string, ep vC07Endpoint) (bool, string) {
+	return e.callArg(t, caller, name, ep, 0)
+}
+
+// the peer.ID argument of variant peerArg (see vC07Case.PeerArg)
+func (e *vC07Env) peerArg(caller, peerArg int) peer.ID {
+	switch peerArg {
+	case 1:
+		return e.ids[caller]
+	case 2:
+		return e.ids[vC07NPeers-1]
+	}
+	return e.hostA.ID()
+}
+
+func (e *vC07Env) callArg(t *testing.T, caller int, name string, ep vC07Endpoint, peerArg int) (bool, string) {
 	var reply interface{} = &struct{}{}
 	if ep.reply != nil && ep.reply.Kind() == reflect.Ptr {
 		reply = reflect.New(ep.reply.Elem()).Interface()
@@ -308,7 +335,11 @@ func (e *vC07Env) call(t *testing.T, caller int, name string, ep vC07Endpoint) (
 	ctx, cancel := context.WithTimeout(e.ctx, 60*time.Second)
 	defer cancel()
 	parts := strings.SplitN(name, ".", 2)
-	err := e.clients[caller].CallContext(ctx, e.hostA.ID(), parts[0], parts[1], e.arg(ep.arg), reply)
+	arg := e.arg(ep.arg)
+	if ep.arg == reflect.TypeOf(peer.ID("")) && peerArg != 0 {
+		arg = e.peerArg(caller, peerArg)
+	}
+	err := e.clients[caller].CallContext(ctx, e.hostA.ID(), parts[0], parts[1], arg, reply)
 	if ctx.Err() != nil {
 		t.Fatalf("RPC %s from caller %d did not return", name, caller)
 	}
@@ -324,6 +355,29 @@ func (e *vC07Env) call(t *testing.T, caller int, name string, ep vC07Endpoint) (
 		t.Fatalf("RPC %s from caller %d: client error %v", name, caller, err)
 	}
 	return true, "method-error"
+}
+
+// one call with the recorder on: passed, class, and the component calls it caused on the called peer. A caller that is not
+// trusted gets a short settling time after the answer, for effects a handler would start in the background.
+func (e *vC07Env) callRecorded(t *testing.T, caller int, name string, ep vC07Endpoint, peerArg int) (bool, string, []string) {
+	vC07Rec.start()
+	passed, class := e.callArg(t, caller, name, ep, peerArg)
+	if caller != 0 && passed && !e.cons.trust.IsTrustedPeer(e.ctx, e.ids[caller]) {
+		time.Sleep(20 * time.Millisecond)
+	}
+	return passed, class, vC07Rec.stop()
+}
+
+func (e *vC07Env) addEffects(out *vOut, c vC07Case, name string, peerArg int, class string, effs []string) {
+	one := c
+	one.Kind, one.Ep, one.PeerArg = "effects", name, peerArg
+	xs := make([]string, len(effs))
+	for i, s := range effs {
+		xs[i] = cqStr(s)
+	}
+	out.count(fmt.Sprintf("effects/%s/arg%d/%d", name, peerArg, len(effs)))
+	out.add(fmt.Sprintf("CEffects %s %d %s %s", one.coqMode(), c.Caller, cqStr(name), cqList(xs)),
+		one, map[string]interface{}{"class": class, "effects": effs}, true)
 }
 
 // ---------------------------------------------------------------------------------------------------
@@ -446,12 +500,37 @@ func TestVerifC07(t *testing.T) {
 					out.count("unknown-endpoint")
 					continue
 				}
-				passed, class := env.call(t, c.Caller, name, ep)
+				passed, class, effs := env.callRecorded(t, c.Caller, name, ep, 0)
 				one := c
 				one.Kind, one.Ep = "auth", name
 				out.count(fmt.Sprintf("%s/tracing=%v/caller%d/%s", c.Mode, c.Tracing, c.Caller, class))
 				out.add(fmt.Sprintf("CAuth %s %d %s %s", one.coqMode(), c.Caller, cqStr(name), cqBool(passed)),
 					one, map[string]interface{}{"passed": passed, "class": class}, true)
+				// what the call DID, when a remote caller that is not trusted was let in
+				if c.Kind == "authall" && c.Caller != 0 && passed && !env.cons.trust.IsTrustedPeer(env.ctx, env.ids[c.Caller]) {
+					env.addEffects(out, c, name, 0, class, effs)
+					if ep.arg == reflect.TypeOf(peer.ID("")) {
+						for _, pa := range []int{1, 2} { // the join handshake with a peer that answers the call-back, and one that does not
+							p2, class2, effs2 := env.callRecorded(t, c.Caller, name, ep, pa)
+							if p2 {
+								env.addEffects(out, c, name, pa, class2, effs2)
+							}
+						}
+					}
+				}
+			}
+		case "effects":
+			ep, known := eps[c.Ep]
+			if !known || c.Caller == 0 {
+				out.count("unknown-endpoint")
+				continue
+			}
+			if c.PeerArg < 0 || c.PeerArg > 2 {
+				c.PeerArg = 0
+			}
+			passed, class, effs := env.callRecorded(t, c.Caller, c.Ep, ep, c.PeerArg)
+			if passed {
+				env.addEffects(out, c, c.Ep, c.PeerArg, class, effs)
 			}
 		}
 	}
